@@ -1031,11 +1031,14 @@ class Norm:
         return ("new", ci.fq, tuple(sorted(out, key=lambda x: x[0])))
 
 
+VALIDATORS: set = set()  # fq names of the functions the model accepted as validators (filled by rp2model.Model)
+
+
 def strip_validators(t: Any) -> Any:
     """Replace validator calls (type_check*, which return their value argument) by the validated value."""
     if not isinstance(t, tuple) or not t:
         return t
-    if t[0] == "call" and ".type_check" in t[1] or (t[0] == "call" and t[1].endswith(":cast")):
+    if t[0] == "call" and (t[1] in VALIDATORS if VALIDATORS else ".type_check" in t[1]) or (t[0] == "call" and t[1].endswith(":cast")):
         kw = dict(t[2])
         for p in ("value", "instance", "transaction_type", "entry_set_type"):
             if p in kw:
